@@ -1074,18 +1074,41 @@ pub fn fixed_scenarios(seed: u64) -> Vec<Scenario> {
         s.sub = format!("{}-huge", s.sub);
         v.push(s);
     }
+    // coverage floor, whatever the seed: every cell of
+    //   kind x {paging off, paged} x {exit 0, exit 1, exit >= 2, killed by a signal}
+    // that exists, every one-shot flag and every wrapped command, at least once
     let mut i = 2_000_000;
     let mut seen: BTreeSet<String> = BTreeSet::new();
-    while seen.len() < 10 + 7 && i < 2_000_400 {
+    while i < 2_006_000 {
         let s = gen_scenario(seed, i, false);
         i += 1;
-        if s.kind == "oneshot" || s.kind == "wrapped" {
-            let key = format!("{}:{}", s.kind, s.sub.split("-status").next().unwrap());
-            if seen.insert(key) {
-                let mut s = s;
-                s.name = format!("fixed-{}", s.sub);
-                v.push(s);
+        let paged = if s.paging == "never" { "off" } else { "paged" };
+        let exit_class = if s.sub.contains("killed") {
+            "killed"
+        } else {
+            match s.expect_exit {
+                0 => "0",
+                1 => "1",
+                _ => ">=2",
             }
+        };
+        let mut keys = vec![format!("cell:{}:{}:{}", s.kind, paged, exit_class)];
+        if s.kind == "oneshot" {
+            keys.push(format!("flag:{}", s.sub));
+        }
+        if s.kind == "wrapped" {
+            keys.push(format!("cmd:{}:{}", s.sub.split("-stderr").next().unwrap().trim_end_matches("-killed"), paged));
+        }
+        let mut fresh = false;
+        for k in keys {
+            if seen.insert(k) {
+                fresh = true;
+            }
+        }
+        if fresh {
+            let mut s = s;
+            s.name = format!("fixed-{}-{}", s.kind, v.len());
+            v.push(s);
         }
     }
     v
